@@ -106,7 +106,7 @@ def gen_case(backend, rnd, nmsg, nops, concurrent):
     allowance) ends the case with a 'hung' event instead of ending the driver"""
     import signal
     from gevent.exceptions import LoopExit
-    run = Run(backend, concurrent, {'prefix': rnd.choice(['slimta:', 'slimta:', 'mq-', 'slimta:q-', 'q.'])})
+    run = Run(backend, concurrent, {'prefix': rnd.choice(['slimta:', 'slimta:', 'mq-', 'slimta:q-', 'q.']), 'onedir': rnd.random() < 0.3})
     signal.signal(signal.SIGALRM, _alarm)
     signal.setitimer(signal.ITIMER_REAL, 60.0)
     try:
